@@ -343,12 +343,24 @@ def _nested_call(stmt: ast.stmt, hname: str, cls) -> Optional[ast.Call]:
     if len(hits) != 1 or hits[0] is v:
         return None
     h = hits[0]
+    # the call must be evaluated exactly once, unconditionally: none of its ancestors inside the expression may be a
+    # comprehension, a lambda, or the conditionally evaluated part of a conditional / boolean expression
     for n in ast.walk(v):
-        if isinstance(n, (ast.ListComp, ast.SetComp, ast.DictComp, ast.GeneratorExp, ast.Lambda, ast.IfExp, ast.BoolOp, ast.NamedExpr, ast.Await, ast.Yield)):
+        if isinstance(n, (ast.NamedExpr, ast.Await, ast.Yield)):
             return None
-        if isinstance(n, ast.Call) and n is not h and not any(x is h for x in ast.walk(n)):
+        if n is not h and any(x is h for x in ast.walk(n)):
+            if isinstance(n, (ast.ListComp, ast.SetComp, ast.DictComp, ast.GeneratorExp, ast.Lambda)):
+                return None
+            if isinstance(n, ast.IfExp) and not any(x is h for x in ast.walk(n.test)):
+                return None
+            if isinstance(n, ast.BoolOp) and not any(x is h for x in ast.walk(n.values[0])):
+                return None
+        if isinstance(n, ast.Call) and n is not h and not any(x is h for x in ast.walk(n)) and ast.unparse(n.func) not in PURE_CALLS:
             return None
     return h
+
+
+PURE_CALLS = {"Fraction", "int", "float", "len", "tuple", "list", "frozenset", "set", "str", "sorted", "sum", "min", "max", "abs", "bool", "dict", "range", "enumerate", "zip"}
 
 
 def _result_name(helper, taken: Set[str]) -> str:
